@@ -9,6 +9,7 @@ from __future__ import annotations
 
 import json
 
+import examples as ex
 import sepcommon as sc
 from common import Outcome, seed, workdir
 
@@ -36,6 +37,10 @@ def run(tier: str) -> int:
     else:
         r5 = sc.tables(wd, "RND", rnd_seed=500 + seed(), rndn=5, rndk=6)[0]
         recs += r5["recs"]
+    exf = ex.sep_tables(wd)   # the repository's example catalogue (5-8 nodes), tables by SepFile.tla
+    recs += exf["recs"]
+    bc5 = sc.tables_extra(wd, "BC5")[0]   # 5-node ADMGs around a chain of three bidirected colliders (SepExtra.tla)
+    recs += bc5["recs"]
     n_orders = 3
     stats, fails = sc.replay(wd, "dsep", recs, n_orders)
     seen = set()
@@ -48,8 +53,8 @@ def run(tier: str) -> int:
         out.fail(key, sig, f)
     nontrivial = sum(1 for r in recs if r["g"]["b"] and r["sep"])
     cov = {
-        "states": sum(m["distinct"] for m in mcs) + sum(g["distinct"] for g in gens) + r5["distinct"] + extra["distinct"],
-        "transitions": sum(m["generated"] for m in mcs) + sum(g["generated"] for g in gens) + r5["generated"] + extra["generated"],
+        "states": sum(m["distinct"] for m in mcs) + sum(g["distinct"] for g in gens) + r5["distinct"] + extra["distinct"] + exf["distinct"] + bc5["distinct"],
+        "transitions": sum(m["generated"] for m in mcs) + sum(g["generated"] for g in gens) + r5["generated"] + extra["generated"] + exf["generated"] + bc5["generated"],
         "traces_validated_against_impl": stats.get("calls", 0),
         "graphs": len(recs),
         "true_separations_among_calls": stats.get("separated", 0),
@@ -57,6 +62,7 @@ def run(tier: str) -> int:
         "exhaustive": True,
         "design_mc": [{"family": m["family"], "distinct": m["distinct"], "invariants": ["EquivOnADMG", "SigmaLaws"]} for m in mcs],
         "insertion_orders": n_orders,
+        "example_catalogue_graphs": exf["names"],
         "history_replays": stats.get("grow_steps", 0),
         "distinct_nontrivial": nontrivial,
         "rule": "one record = ADMG with its full verdict table {(a,b,C) separated}; every ordered pair and every C is "
@@ -68,4 +74,4 @@ def run(tier: str) -> int:
     }
     return out.finish("model_checking", cov, [
         "expected verdicts come from MSepPath in Separation.tla, proved equal by TLC to d-separation in the canonical latent DAG",
-        "graphs with more than 5 nodes are not explored"])
+        "beyond 5 nodes only the 7 catalogue graphs (5-8 nodes) are explored"])
